@@ -125,7 +125,22 @@ theorem options_as_modelled :
 the source is a known net/http constant -/
 theorem convert_statuses_as_modelled (f : ReqFail) :
     (∀ fn ∈ f.converters, some f.convStatus ∈ statusesOf convertStatus fn) ∧
-    (convertStatus.all (fun r => match r with | .status _ c => (httpConst c).isSome | _ => false)) = true := by
+    (convertStatus.all (fun r => match r with | .status _ c => (httpConst c).isSome | _ => true)) = true := by
   cases f <;> decide
+
+/-- the serving path of ValidationErrorEncoder: Encode hands `ConvertErrors(err)` to the wrapped encoder, and
+ConvertErrors dispatches in this order — route errors first; anything that is not a *RequestError (a
+SecurityRequirementsError among them) is returned unconverted; then by the wrapped cause. Every converter the
+model names for a failure kind is one the dispatch reaches. -/
+theorem convert_dispatch_as_modelled :
+    KRow.encode "enc.Encoder(ctx, ConvertErrors(err), w)" ∈ convertStatus ∧
+    dispatchOf convertStatus =
+      [("err.(*routers.RouteError)", "convertRouteError"), ("!ok", "return err"),
+       ("e.Err == nil", "convertBasicRequestError"), ("e.Err == ErrInvalidRequired", "convertErrInvalidRequired"),
+       ("e.Err == ErrInvalidEmptyValue", "convertErrInvalidEmptyValue"), ("e.Err.(*ParseError)", "convertParseError"),
+       ("e.Err.(*openapi3.SchemaError)", "convertSchemaError"), ("cErr != nil", "return cErr")] ∧
+    (∀ f : ReqFail, ∀ fn ∈ f.converters, fn ∈ (dispatchOf convertStatus).map (·.2)) := by
+  refine ⟨by decide, by decide, ?_⟩
+  intro f; cases f <;> decide
 
 end KinModel.Middleware
